@@ -328,4 +328,32 @@ func c10Syscalls(w *core.Worker, tx c10Tx, base string, run func(string, []strin
 		}
 	}
 	w.Count("syscall_crash_runs", int64(fired))
+	// the rename of the temp file over the table is refused (EPERM: a sticky directory owned by somebody else, a bind
+	// mount): COMMIT may fail, but whatever csvq does instead is subject to the same rule — killed at its n-th write
+	maxW := counts["write"]
+	if maxW > 40 {
+		maxW = 40
+	}
+	refused := 0
+	for n := 0; n <= maxW; n++ {
+		d := filepath.Join(w.Work, "rcrash")
+		_ = os.RemoveAll(d)
+		copyDir(base, d)
+		c10Link(d, tx.links)
+		c10Stale(d, tx.stale)
+		pre := []string{"strace", "-f", "-o", "/dev/null", "-e", "trace=rename,renameat,renameat2,write", "-e", "inject=rename,renameat,renameat2:error=EPERM"}
+		at := "rename-refused"
+		if n > 0 {
+			pre = append(pre, "-e", fmt.Sprintf("inject=write:signal=SIGKILL:when=%d", n))
+			at = fmt.Sprintf("syscall:write-after-refused-rename#%d", n)
+		}
+		p := run(d, []string{"GOMAXPROCS=1"}, pre)
+		if n > 0 && p.Signal != 9 && p.Code != 137 && p.Code != -1 {
+			continue
+		}
+		refused++
+		judge(d, at)
+		w.Case(core.Digest(txDigest, at), true)
+	}
+	w.Count("runs_with_the_rename_refused", int64(refused))
 }
